@@ -103,11 +103,11 @@ Theorem C14_rename :
 Proof. exact spec_solutions_rename. Qed.
 Print Assumptions C14_rename.
 
-(* ... and so does the planner model on D3, row by row (up to the zone of an instant) *)
+(* ... and so does the planner model on D10 (patterns with OPTIONAL clauses included), row by row (up to the zone of an instant) *)
 Theorem C14_model_rename :
   forall (f : str -> str), (forall a b, f a = f b -> a = b) -> f [] = [] ->
     forall e gs glo cs outs outs' t,
-      D3 e gs cs outs = true -> D3 e gs (map (ren_clause f) cs) outs' = true ->
+      D10 e gs cs outs = true -> D10 e gs (map (ren_clause f) cs) outs' = true ->
       process_pattern e gs glo cs empty_table = Ok t ->
       exists t', process_pattern e gs glo (map (ren_clause f) cs) empty_table = Ok t' /\
                  Forall2 row_equiv (trows t') (map (ren_row f) (trows t)).
